@@ -734,6 +734,7 @@ class Parser(ExprParser):
             if self.have("LPAREN"):
                 parens = 1
                 parts = []
+                prev_word = False
                 # collect tokens until found balanced paren
                 while True:
                     if self.token.typ == "LPAREN":
@@ -747,6 +748,14 @@ class Parser(ExprParser):
                     if parens == 0:
                         self.next()
                         break
+                    word = self.token.typ in [
+                        "ID", "INTEGER", "REAL",
+                        "TYPE_SPECIFIER", "TYPE_QUALIFIER", "STORAGE_CLASS",
+                    ] or self.token.typ.lower() in cxx_keywords
+                    if word and prev_word:
+                        # Keep adjacent words apart, '3 4' is not '34'.
+                        parts.append(" ")
+                    prev_word = word
                     parts.append(self.token.value)
                     self.next()
                 attrs[name] = "".join(parts)
